@@ -540,6 +540,45 @@ def write_crate(crate, probes, oauth2_opts="", extra_deps=""):
     return d
 
 
+def src_fingerprint():
+    """content hash of everything cargo compiles from the checked repository (manifest, lock, build.rs, src/**)."""
+    h = hashlib.sha1()
+    items = []
+    for f in ("Cargo.toml", "Cargo.lock", "build.rs"):
+        if os.path.exists(os.path.join(REPO, f)):
+            items.append(f)
+    for root, dirs, files in os.walk(os.path.join(REPO, "src")):
+        dirs.sort()
+        for f in sorted(files):
+            items.append(os.path.relpath(os.path.join(root, f), REPO))
+    for rel in sorted(items):
+        with open(os.path.join(REPO, rel), "rb") as fh:
+            h.update(rel.encode() + b"\0" + hashlib.sha1(fh.read()).digest())
+    return h.hexdigest()
+
+
+def ensure_not_stale(crate_dir, log):
+    """cargo decides freshness of a path dependency by mtime only: a source file replaced by different content
+    with an OLDER mtime (rsync -a, cp -p, tar) is considered fresh and the stale artifact is reused. So: whenever the
+    CONTENT of the checked repository differs from what the previous probes run saw, oauth2's artifacts are removed
+    from the shared target dir (all profiles / feature sets; dependencies stay cached). -> tooling message or None"""
+    stamp = os.path.join(PROBES_OUT, ".src-stamp-" + hashlib.sha1(os.path.abspath(REPO).encode()).hexdigest()[:10])
+    fp = src_fingerprint()
+    if os.path.exists(stamp) and read(stamp) == fp:
+        return None
+    env = dict(os.environ)
+    env["CARGO_NET_OFFLINE"] = "true"
+    env.pop("CARGO_TARGET_DIR", None)
+    p = subprocess.run(["cargo", "clean", "--offline", "-p", "oauth2"], cwd=crate_dir, env=env, stdout=subprocess.PIPE,
+                       stderr=subprocess.STDOUT, text=True, timeout=600)
+    log.append("source content of %s changed since the last probes run: cargo clean -p oauth2 (rc=%d)\n%s"
+               % (REPO, p.returncode, p.stdout[-800:]))
+    if p.returncode != 0:
+        return "cannot invalidate cached oauth2 artifacts (cargo clean -p oauth2 failed): " + p.stdout[-600:]
+    write_if_changed(stamp, fp)
+    return None
+
+
 def span_lines_in(span, fname):
     """line range of `span` inside file `fname`, following macro expansions back to the call site."""
     seen = 0
@@ -645,6 +684,14 @@ def run_groups(pid, groups, log):
         if len(set(names)) != len(names):
             raise RuntimeError("duplicate probe names in " + crate)
         d = write_crate(crate, probes, opts, extra)
+        stale = ensure_not_stale(d, log)
+        if stale:
+            tooling.append("%s: %s" % (pid, stale))
+            for p in probes:
+                p.verdict, p.detail, p.errors = "broken", "not run: stale artifacts could not be invalidated", []
+                p.meta["crate_failed"] = True
+            allp += probes
+            continue
         foreign, wall, cmd = run_crate(d, probes, log)
         timings[crate] = round(wall, 2)
         cmds[crate] = cmd
